@@ -388,15 +388,15 @@ def run(chk):
             return {'<': 1, '<=': 1, '>': 1, '>=': 0}.get(node.val) if node.val in ('<', '>') else 0
         return None
     hookc = ghost_mask({}, clamp_policy)
-    va = X.specialize(it.call(mv, f_arr, [T, P, A, False, st, se, gs, ge, E, V]), hookc)
+    va = X.specialize(expand_minmax(X.lift(it.call(mv, f_arr, [T, P, A, False, st, se, gs, ge, E, V]))), hookc)          # (np.clip / max / min clamps read as the mask-sums they stand for)
     fact('arrhenius (no extra T): == A stress^(1-n) grain^m exp((E + P V)/(R T))', va, A * X.power(st, 1 - se) * X.power(gs, ge) * exp((E + P * V) / (T * Rg)), mv.where(f_arr))
     record_sign(chk, 'R19.4', 'arrhenius (no extra T): d viscosity / d T <= 0', X.diff(va, 'temperature'), (NEG, NONPOS), mv.where(f_arr))
-    vat = X.specialize(it.call(mv, f_arr, [T, P, A, True, st, se, gs, ge, E, V]), hookc)
+    vat = X.specialize(expand_minmax(X.lift(it.call(mv, f_arr, [T, P, A, True, st, se, gs, ge, E, V]))), hookc)
     fact('arrhenius (extra T) == T x arrhenius (no extra T)', vat, T * va, mv.where(f_arr))
     sgt = sign_of(X.diff(vat, 'temperature'))
     if sgt not in (NEG, NONPOS):
         chk.undecide('R19.4', 'arrhenius (extra T): d viscosity / d T <= 0', 'sign domain: derivative is eta (1 - (E+PV)/(RT)), negative only for T < (E+PV)/R (documented as outside the claim)')
-    vr = X.specialize(it.call(mv, f_ref, [T, P, eref, Tref, E, V]), hookc)
+    vr = X.specialize(expand_minmax(X.lift(it.call(mv, f_ref, [T, P, eref, Tref, E, V]))), hookc)
     fact('reference: == eta_ref exp((E + P V)/R (1/T - 1/T_ref))', vr, eref * exp((E + P * V) / Rg * (1 / T - 1 / Tref)), mv.where(f_ref))
     fact('reference: value at T_ref == eta_ref', X.subst(vr, {'temperature': Tref}), eref, mv.where(f_ref))
     record_sign(chk, 'R19.4', 'reference: d viscosity / d T <= 0', X.diff(vr, 'temperature'), (NEG, NONPOS), mv.where(f_ref))
@@ -426,7 +426,7 @@ def run(chk):
     xarg = (E + P * V) / (T * Rg)
     for lawname, fn_, args_, interior, xexp in (('arrhenius (no extra T)', f_arr, [T, P, A, False, st, se, gs, ge, E, V], va, xarg),
                                                 ('reference', f_ref, [T, P, eref, Tref, E, V], vr, (E + P * V) / Rg * (1 / T - 1 / Tref))):
-        raw = it.call(mv, fn_, args_)
+        raw = expand_minmax(X.lift(it.call(mv, fn_, args_)))
         for side in ('upper', 'lower'):
             hk, bnds = saturated(side)
             vsat = X.specialize(raw, hk)
